@@ -132,6 +132,11 @@ theorem bad_value_becomes_null (c : LasContent) (l : LasLayout) (hwf : wfContent
 
 theorem numEq_self (a : Int × Int) : numEq a a = true := by simp [numEq]
 
+/-- huge decimal exponents are never exponentiated: they compare like Python's inf and 0.0 -/
+example : numEq (1, 999999999999) (25, 1000000000000) = true ∧ numEq (1, -1123456789) (0, 0) = true ∧
+    numEq (1, 999999999999) (-1, 999999999999) = false ∧ numEq (1250, -2) (125, -1) = true ∧
+    numEq (1250, -2) (1251, -2) = false := by decide +kernel
+
 /-- **masking is exact**: in the array returned for a printed content the X axis is never masked, and a cell of another
 channel is masked exactly when the token written is not a number or the number written EQUALS the declared NULL
 (as exact decimals) — a value merely close to NULL is data. -/
